@@ -61,7 +61,10 @@ Record proto := {
      (issue-credential), 2 = asked for before handling: refused (present-proof) *)
   p_tid_check : N;
   p_pr : N;                              (* the problem-report message type *)
-  p_stop_keeps_payload : bool            (* the Stop callback does not delete the stored payload (introduce) *)
+  p_stop_keeps_payload : bool;           (* the Stop callback does not delete the stored payload (introduce) *)
+  (* introduce: continuing a (msg, opt) event saves the instance id with the metadata of the message's thread, and an
+     inbound message belongs first of all to the instance stored with its thread's metadata *)
+  p_meta : option (N * N)
 }.
 
 Definition pair_eqb (a b : st * st) : bool := N.eqb (fst a) (fst b) && N.eqb (snd a) (snd b).
@@ -134,26 +137,49 @@ Definition hit_range (f : option nat) (base len : nat) : bool :=
 (* e_live: the decision is still open;  e_clos: the callback (closure) of the event is still usable -- lost when the
    service is restarted; the decision can then only be taken through the API by protocol instance id *)
 Record ev := { e_t : thid; e_src : st; e_st : st; e_msg : N; e_v3 : bool; e_flag : bool; e_live : bool; e_badtid : bool;
-               e_clos : bool }.
+               e_clos : bool;
+               e_tid : option thid   (* the message's own thread id (thid, else id) *) }.
 
 (* stored: the transitional payload kept per protocol instance for ActionContinue/ActionStop(piID): the index of the
    event whose payload was written last (None: deleted by a decision on that instance) *)
-Record sstate := { persisted : list (thid * st); pending : list ev; stored : list (thid * option nat) }.
-Definition s0 : sstate := {| persisted := []; pending := []; stored := [] |}.
+(* meta: introduce keeps, with the metadata of a THREAD, the protocol instance id its messages belong to *)
+Record sstate := { persisted : list (thid * st); pending : list ev; stored : list (thid * option nat);
+                   meta : list (thid * thid) }.
+Definition s0 : sstate := {| persisted := []; pending := []; stored := []; meta := [] |}.
+
+Definition meta_of (s : sstate) (tid : thid) : option thid :=
+  match find (fun x => N.eqb (fst x) tid) (meta s) with Some x => Some (snd x) | None => None end.
+Definition set_meta (s : sstate) (tid : option thid) (t : thid) : sstate :=
+  match tid with
+  | Some x => {| persisted := persisted s; pending := pending s; stored := stored s; meta := (x, t) :: meta s |}
+  | None => s
+  end.
 
 Definition payload (s : sstate) (t : thid) : option nat :=
   match find (fun x => N.eqb (fst x) t) (stored s) with Some x => snd x | None => None end.
 
+Definition wire_thread_s (p : proto) (s : sstate) (m : N) (v3 outbound : bool) (i th pth : option thid) (fresh : thid)
+  : option thid :=
+  match wire_thread p m v3 outbound i th pth fresh with
+  | Some t =>
+      match p_meta p, (match th with Some x => Some x | None => i end) with
+      | Some _, Some tid =>
+          if negb outbound then match meta_of s tid with Some q => Some q | None => Some t end else Some t
+      | _, _ => Some t
+      end
+  | None => None
+  end.
+
 Definition cur (p : proto) (s : sstate) (t : thid) : st :=
   match find (fun x => N.eqb (fst x) t) (persisted s) with Some x => snd x | None => p_start p end.
 Definition set (s : sstate) (t : thid) (x : st) : sstate :=
-  {| persisted := (t, x) :: persisted s; pending := pending s; stored := stored s |}.
+  {| persisted := (t, x) :: persisted s; pending := pending s; stored := stored s; meta := meta s |}.
 Definition commit (s : sstate) (t : thid) (pers : option st) : sstate :=
   match pers with Some x => set s t x | None => s end.
 Definition add_ev (s : sstate) (e : ev) : sstate :=
-  {| persisted := persisted s; pending := pending s ++ [e]; stored := stored s |}.
+  {| persisted := persisted s; pending := pending s ++ [e]; stored := stored s; meta := meta s |}.
 Definition store_ev (s : sstate) (t : thid) (i : nat) : sstate :=
-  {| persisted := persisted s; pending := pending s; stored := (t, Some i) :: stored s |}.
+  {| persisted := persisted s; pending := pending s; stored := (t, Some i) :: stored s; meta := meta s |}.
 
 (* parameters of one execution context *)
 Record ctx := { c_v3 : bool; c_inbound : bool; c_opt : N; c_flag : bool; c_f : fault; c_badtid : bool; c_pr : bool }.
@@ -254,20 +280,20 @@ Definition res_eqb (a b : res) : bool :=
 Fixpoint kill (l : list ev) (n : nat) : list ev :=
   match l, n with
   | e :: r, O => {| e_t := e_t e; e_src := e_src e; e_st := e_st e; e_msg := e_msg e; e_v3 := e_v3 e;
-                    e_flag := e_flag e; e_live := false; e_badtid := e_badtid e; e_clos := e_clos e |} :: r
+                    e_flag := e_flag e; e_live := false; e_badtid := e_badtid e; e_clos := e_clos e; e_tid := e_tid e |} :: r
   | e :: r, S n' => e :: kill r n'
   | [], _ => []
   end.
 
 (* the decision on event i of instance t is taken: the event is closed, the stored payload of t is deleted *)
 Definition killed (s : sstate) (i : nat) (t : thid) : sstate :=
-  {| persisted := persisted s; pending := kill (pending s) i; stored := (t, None) :: stored s |}.
+  {| persisted := persisted s; pending := kill (pending s) i; stored := (t, None) :: stored s; meta := meta s |}.
 
 Definition no_closures (s : sstate) : sstate :=
   {| persisted := persisted s;
      pending := map (fun e => {| e_t := e_t e; e_src := e_src e; e_st := e_st e; e_msg := e_msg e; e_v3 := e_v3 e;
-                                 e_flag := e_flag e; e_live := e_live e; e_badtid := e_badtid e; e_clos := false |}) (pending s);
-     stored := stored s |}.
+                                 e_flag := e_flag e; e_live := e_live e; e_badtid := e_badtid e; e_clos := false; e_tid := e_tid e |}) (pending s);
+     stored := stored s; meta := meta s |}.
 
 (* run handle for thread t from state c, commit what it persisted, raise the action event it halted for.
    `ab`: abandon afterwards when it failed (the listener).  Returns the state, the announced states and
@@ -278,7 +304,7 @@ Definition process (p : proto) (s : sstate) (t : thid) (k : ctx) (m : N) (c : st
   let s1 := commit s t (r_pers r1) in
   let s1' := match r_halt r1 with
              | Some n => add_ev s1 {| e_t := t; e_src := last (r_ann r1) c; e_st := n; e_msg := m; e_v3 := c_v3 k;
-                                      e_flag := c_flag k; e_live := true; e_badtid := false; e_clos := true |}
+                                      e_flag := c_flag k; e_live := true; e_badtid := false; e_clos := true; e_tid := None |}
              | None => s1
              end in
   if r_ok r1 then (s1', r_ann r1, true, false)
@@ -288,8 +314,8 @@ Definition process (p : proto) (s : sstate) (t : thid) (k : ctx) (m : N) (c : st
      negb skip && terminal p (last (r_ann r1) (cur p s t)))
   else (s1, r_ann r1, false, false).
 
-Definition msg_step (p : proto) (s : sstate) (outbound : bool) (m : N) (v3 flag : bool) (t : thid) (bt : bool) (f : fault)
-    (tape : list (option st)) : sstate * (res * list st) * bool :=
+Definition msg_step (p : proto) (s : sstate) (outbound : bool) (m : N) (v3 flag : bool) (t : thid) (bt : bool) (tid : option thid)
+    (f : fault) (tape : list (option st)) : sstate * (res * list st) * bool :=
       if f_get f then (s, (RReject, []), false)
       else
       match target p m v3 outbound with
@@ -299,7 +325,7 @@ Definition msg_step (p : proto) (s : sstate) (outbound : bool) (m : N) (v3 flag 
           else if negb outbound && is_action p m v3 then
                  if f_tp f then (s, (RReject, []), false)
                  else (store_ev (add_ev s {| e_t := t; e_src := cur p s t; e_st := x; e_msg := m; e_v3 := v3;
-                                             e_flag := flag; e_live := true; e_badtid := bt; e_clos := true |})
+                                             e_flag := flag; e_live := true; e_badtid := bt; e_clos := true; e_tid := tid |})
                                  t (length (pending s)), (RAction, []), false)
                else
                  let k := {| c_v3 := v3; c_inbound := negb outbound; c_opt := 0; c_flag := flag; c_f := f; c_badtid := bt;
@@ -317,20 +343,25 @@ Definition decide (p : proto) (s : sstate) (i : nat) (v : ev) (opt : N) (stop : 
               else existsb (fun r => N.eqb (fst r) (e_msg v) && N.eqb (snd r) opt) (p_cont_stops p) in
   let k := {| c_v3 := e_v3 v; c_inbound := true; c_opt := opt; c_flag := e_flag v; c_f := f; c_badtid := e_badtid v;
               c_pr := N.eqb (e_msg v) (p_pr p) |} in
-  let '(s2, ann, _, fat) := process p (killed s i (e_t v)) (e_t v) k (e_msg v) (e_st v) skip true tape in
-  (s2, (ROk, ann), fat).
+  let '(s2, ann, ok, fat) := process p (killed s i (e_t v)) (e_t v) k (e_msg v) (e_st v) skip true tape in
+  let saves := match p_meta p with
+               | Some (m, o) => negb stop && N.eqb (e_msg v) m && N.eqb opt o
+                                && (ok || match f_act f with Some _ => true | None => false end)
+               | None => false
+               end in
+  ((if saves then set_meta s2 (e_tid v) (e_t v) else s2), (ROk, ann), fat).
 
 Definition with_stored (s : sstate) (st : list (thid * option nat)) : sstate :=
-  {| persisted := persisted s; pending := pending s; stored := st |}.
+  {| persisted := persisted s; pending := pending s; stored := st; meta := meta s |}.
 
 (* the handling succeeded but the caller is told an error *)
 Definition relabel (b : bool) (r : res) : res := if b then match r with ROk => RErr | _ => r end else r.
 
 Definition step_full (p : proto) (s : sstate) (o : op) : sstate * (res * list st) * bool :=
   match o with
-  | Msg outbound m v3 flag t f tape => msg_step p s outbound m v3 flag t false f tape
+  | Msg outbound m v3 flag t f tape => msg_step p s outbound m v3 flag t false None f tape
   | Wire outbound m v3 flag i th pth fresh f tape =>
-      match wire_thread p m v3 outbound i th pth fresh with
+      match wire_thread_s p s m v3 outbound i th pth fresh with
       | Some t =>
           let bt := negb (is_some i) && negb (N.eqb (resolve p m v3 outbound (is_some i) (is_some th) (is_some pth)) 4) in
           let bad_tid := bt && negb (negb outbound && is_action p m v3) in
@@ -339,7 +370,7 @@ Definition step_full (p : proto) (s : sstate) (o : op) : sstate * (res * list st
             (* a freshly generated id: nothing is read from the store *)
             let f' := if N.eqb (resolve p m v3 outbound (is_some i) (is_some th) (is_some pth)) 4
                       then {| f_get := false; f_tp := f_tp f; f_put := f_put f; f_act := f_act f |} else f in
-            let '(s1, (r, ann), fat) := msg_step p s outbound m v3 flag t bt f' tape in
+            let '(s1, (r, ann), fat) := msg_step p s outbound m v3 flag t bt (match th with Some x => Some x | None => i end) f' tape in
             (s1, (relabel (bad_tid && N.eqb (p_tid_check p) 1) r, ann), fat)
       | None => (s, (RReject, []), false)          (* no usable identifier: refused, nothing consulted *)
       end
@@ -401,7 +432,7 @@ Definition step_fat (p : proto) (s : sstate) (o : op) : bool := snd (step_full p
 Definition op_thread (p : proto) (s : sstate) (o : op) : option thid :=
   match o with
   | Msg _ _ _ _ t _ _ => Some t
-  | Wire outbound m v3 _ i th pth fresh _ _ => wire_thread p m v3 outbound i th pth fresh
+  | Wire outbound m v3 _ i th pth fresh _ _ => wire_thread_s p s m v3 outbound i th pth fresh
   | Continue e _ _ _ | Stop e _ _ =>
       match nth_error (pending s) e with Some v => if e_live v && e_clos v then Some (e_t v) else None | None => None end
   | ContinueP t _ _ _ | StopP t _ _ =>
@@ -443,7 +474,7 @@ Definition disciplined_step (p : proto) (s : sstate) (o : op) : bool :=
   match o with
   | Msg _ _ _ _ t _ _ => negb (has_live s t) || is_reject (fst (snd (step p s o)))
   | Wire outbound m v3 _ i th pth fresh _ _ =>
-      match wire_thread p m v3 outbound i th pth fresh with
+      match wire_thread_s p s m v3 outbound i th pth fresh with
       | Some t => negb (has_live s t) || is_reject (fst (snd (step p s o)))
       | None => true
       end
